@@ -68,9 +68,10 @@ func hConflicts(u, t string) bool {
 }
 
 type c25Env struct {
-	c    *fw.Ctx
-	t    *hTemplate
-	conf atomic.Int64 // git conformance replays that passed
+	c          *fw.Ctx
+	t          *hTemplate
+	conf       atomic.Int64 // git conformance replays that passed
+	leftStaged atomic.Int64
 }
 
 // vector layout: curA curD tgtA tgtD pre entry
@@ -207,9 +208,6 @@ func (e *c25Env) judge(v []int, root string, untracked map[string]string) []stri
 	// paths tracked before (HEAD or index) and not in the target are gone: git
 	// status must not only be clean, the worktree must not keep stale tracked files
 	cur := c25Files(c25A[v[0]], c25D[v[1]])
-	if v[4] == 6 {
-		cur["n"] = '3'
-	}
 	for p := range cur {
 		if _, in := tgt[p]; in {
 			continue
@@ -254,6 +252,11 @@ func (e *c25Env) judge(v []int, root string, untracked map[string]string) []stri
 		if xy != "??" {
 			items = append(items, fmt.Sprintf("%s:git-status'clean'/'%s'", p, xy))
 		}
+	}
+	// observation only (outside the statement): a file that was staged but is in
+	// neither commit is removed by git; go-git leaves it behind as untracked
+	if v[4] == 6 && snap["n"] != "" {
+		e.leftStaged.Add(1)
 	}
 	sort.Strings(items)
 	return items
@@ -377,7 +380,8 @@ func runC25(c *fw.Ctx) {
 	var fails hFailures
 	refused := map[string]int{}
 	rmu := make(chan struct{}, 1)
-	c.ParDo(n, 0, func(i int) {
+	c.ParDo(n, 0, func(k int) {
+		i := hSpread(k, n)
 		v := hVecAt(c25Dims, i)
 		sig, class := e.run(v)
 		c.Eval()
@@ -401,5 +405,6 @@ func runC25(c *fw.Ctx) {
 	})
 	c.Extra("refusals", refused)
 	c.Extra("git_conformance_replays", e.conf.Load())
+	c.Extra("observation_staged_new_file_left_on_disk(go-git and git runs)", e.leftStaged.Load())
 	fails.report(c, func(v []int) string { s, _ := e.run(v); return s }, c25Render)
 }
